@@ -25,6 +25,9 @@ struct ZoneModel {
     handles: i64,
     footprint: usize,
     reference: bool,
+    /// (address, allocation serial) of the reference-counted block the
+    /// handles point into, when known.
+    arc_block: Option<(usize, u64)>,
 }
 
 struct Run {
@@ -59,6 +62,7 @@ struct Run {
     /// Zones whose handle count changed since the last memory check.
     dirty: Vec<u32>,
     api_panics: u64,
+    interior_reallocs: u64,
     api_panic_sample: Option<String>,
     last_spec: HashMap<u8, Spec>,
     /// The database over the run's small zoneinfo directory, and which zone
@@ -282,6 +286,7 @@ impl NativeEnv {
                 handles: 0,
                 footprint: fp,
                 reference,
+                arc_block: None,
             })
         });
         if !spec.heap() && fp != 0 {
@@ -330,7 +335,12 @@ impl NativeEnv {
                 }
             }
             let z = self.new_zone(spec, reference);
-            with_run(|r| r.bits.insert(bits, z));
+            let addr = (bits & !7usize).wrapping_sub(16);
+            let block = alloc::live_at(addr).map(|l| (addr, l.1));
+            with_run(|r| {
+                r.bits.insert(bits, z);
+                r.zones[z as usize].arc_block = block;
+            });
             return z;
         }
         self.new_zone(spec, reference)
@@ -542,6 +552,7 @@ impl Env for NativeEnv {
                         handles: 1,
                         footprint: 1,
                         reference: false,
+                        arc_block: Some((addr, serial)),
                     });
                     (r.zones.len() - 1) as u32
                 });
@@ -653,12 +664,25 @@ fn check_memory_impl(after: &str, full: bool) {
         if handles < 0 {
             violate("harness_model", format!("handle count of zone #{z} is {handles}"));
         } else if handles > 0 && freed > 0 {
-            violate(
-                "premature_free",
-                format!(
-                    "{freed} of {footprint} allocation(s) of zone #{z} ({spec:?}) were freed while {handles} handle(s) are still alive (after {after})"
-                ),
-            );
+            // Interior buffers of a zone may legitimately be replaced while
+            // handles exist (a lazily completed table behind a lock, say);
+            // what must not go while a handle exists is the block the handles
+            // point into. If that block is unknown, any early free counts.
+            let block = with_run(|r| r.zones[z].arc_block);
+            let block_gone = match block {
+                Some((addr, serial)) => alloc::live_at(addr).map(|l| l.1) != Some(serial),
+                None => true,
+            };
+            if block_gone {
+                violate(
+                    "premature_free",
+                    format!(
+                        "{freed} of {footprint} allocation(s) of zone #{z} ({spec:?}) were freed while {handles} handle(s) are still alive (after {after})"
+                    ),
+                );
+            } else {
+                with_run(|r| r.interior_reallocs += 1);
+            }
         } else if handles == 0 && live > 0 {
             violate(
                 "leak",
@@ -808,6 +832,7 @@ fn run_case(
             bits: HashMap::new(),
             dirty: vec![],
             api_panics: 0,
+            interior_reallocs: 0,
             api_panic_sample: None,
             last_spec: HashMap::new(),
             db: None,
@@ -1109,6 +1134,7 @@ impl Prop for C20 {
             stats.add("oracle.eq_checked", run.eq_checked);
             stats.add("database.lookups", run.db_gets);
             stats.add("ignored.zoned_arithmetic_api_panics", run.api_panics);
+            stats.add("tolerated.interior_buffers_replaced_while_handles_live", run.interior_reallocs);
             stats.add("oracle.memory_model_checks", run.mem_checks);
             stats.add("zones.instances", run.zones.len() as u64);
             stats.add(
